@@ -1,6 +1,6 @@
 (* C17 - saving with the EMS fixes: the rewritten time units string. *)
 From Coq Require Import ZArith List Bool.
-From EV Require Import Model.TimeUnits Proofs.TimeUnitsP Model.TimeCoord Proofs.TimeCoordP.
+From EV Require Import Model.TimeUnits Proofs.TimeUnitsP Model.TimeCoord Proofs.TimeCoordP Model.SaveFixes Proofs.SaveFixesP.
 Import ListNotations.
 Open Scope Z_scope.
 
@@ -82,3 +82,31 @@ Theorem C17_old_time_coordinate_takes_bounds_refuted :
   exists vs v w, time_coordinate_old vs = Some v /\ In w vs /\ tv_bounds w = Some (tv_name v).
 Proof. exact old_takes_bounds_refuted. Qed.
 Print Assumptions C17_old_time_coordinate_takes_bounds_refuted.
+
+(* ---- missing-value declarations of the saved file (model SaveFixes of disable_default_fill_value + the writer's rule) ---- *)
+
+(* every variable - coordinates included - is written with exactly the fill value its source declared: none gains one,
+   none loses or changes one *)
+Theorem C17_no_fill_value_gained : forall vs, saved vs = map (fun v => (s_name v, declared_fill v)) vs.
+Proof. exact saved_spec. Qed.
+Print Assumptions C17_no_fill_value_gained.
+
+(* the fix-up touches nothing but the encoding entry of variables that declared nothing, and doing it again changes nothing *)
+Theorem C17_fixup_minimal : forall v, s_name (disable_one v) = s_name v /\ s_attr (disable_one v) = s_attr v /\
+  s_has_nan (disable_one v) = s_has_nan v /\ (declared_fill v <> None -> disable_one v = v).
+Proof. exact disable_one_keeps. Qed.
+Print Assumptions C17_fixup_minimal.
+
+Theorem C17_fixup_idempotent : forall v, disable_one (disable_one v) = disable_one v.
+Proof. exact disable_idempotent. Qed.
+Print Assumptions C17_fixup_idempotent.
+
+(* it is needed, and it is needed on coordinate variables too *)
+Theorem C17_without_fixup_refuted : exists v, written_fill v <> declared_fill v.
+Proof. exact without_fixup_refuted. Qed.
+Print Assumptions C17_without_fixup_refuted.
+
+Theorem C17_data_variables_only_refuted :
+  exists vs, saved_data_only vs <> map (fun p : svar * bool => (s_name (fst p), declared_fill (fst p))) vs.
+Proof. exact data_only_refuted. Qed.
+Print Assumptions C17_data_variables_only_refuted.
